@@ -552,14 +552,14 @@ func genC12(c *h.Ctx) {
 		scale := 1
 		if zi > 0 {
 			scale = 6
+			if c.Thorough() {
+				scale = 16
+			}
 		}
 		sub := &h.Ctx{Tier: c.Tier, Seed: c.Seed, Rng: c.Rng.Fork(), Dist: map[string]int{}}
 		h.InitCtx(sub)
 		genStream(sub, z, scale)
 		for _, l := range sub.Lines {
-			if (z == "NY" || z == "LON") && strings.HasPrefix(l, "rt ") {
-				continue // TEMPORARY: Date.parse of an expanded year under a zone with historical offsets (repaired in the fix stack)
-			}
 			if z == "UTC" {
 				c.Add(l)
 			} else {
